@@ -299,7 +299,7 @@ def cmd_check(pid, tier, seed, jobs):
         if not r.exhausted:
             problems.append(f"instance {r.params} not exhausted within budget")
         for st_, d in r.problems:
-            problems.append(f"{st_}: {str(d)[:800]}")
+            problems.append(f"{st_}: {str(d)[-1500:]}")
     for lr in lemma_results:
         if lr["result"] == "sat":
             violations.append((lr.get("params", {"lemma": lr["name"]}), "lemma:" + lr["name"], lr.get("assignment", {}), lr.get("detail")))
